@@ -1406,6 +1406,19 @@ def variants(tier: str) -> List[Dict[str, Any]]:
                           for verb in ("remove", "install", "execute", "execute")])
     add("data_manipulation(rich obs, web-browser removed, installed again and executed)", c, 1, 30, ex, p_extra=0.6,
         script=(0, None, 1, None, None, None, 2))
+    # reward sharing in the other direction: an agent declared BEFORE the defender shares the defender's reward (the
+    # order in which agents are updated follows the sharing graph; every agent's observation is updated whatever it is)
+    for flat in (False, True):
+        c = dm()
+        for ag in c["agents"]:
+            comps = ag.get("reward_function", {}).get("reward_components", [])
+            if ag["ref"] == "defender":
+                ag["reward_function"]["reward_components"] = [x for x in comps if not (x["type"] == "shared-reward"
+                                                                                         and x["options"]["agent_name"] == "client_2_green_user")]
+            if ag["ref"] == "client_2_green_user":
+                comps.append({"type": "shared-reward", "weight": 0.5, "options": {"agent_name": "defender"}})
+        _proxy(c)["agent_settings"]["flatten_obs"] = flat
+        add(f"data_manipulation(an earlier agent shares the defender's reward, flatten={flat})", c, 2, 10 if quick else 40)
     # per-host overrides of the nodes-level options: a host that says `false` where the nodes level says `true` (and the
     # reverse) - the host's own value is the one that counts
     for nodes_level in ((True, True, True), (False, False, False)):
